@@ -743,7 +743,8 @@ bool Units::compatible(const UnitsPtr &units1, const UnitsPtr &units2)
             if (found == units2Map.end()) {
                 return false;
             }
-            if (!areEqual(found->second, units.second)) {
+            // The exponents are sums of products of real numbers: -1 - 3*0.1 - 3*0.7 + 3*0.8 is -1 up to rounding.
+            if (std::fabs(found->second - units.second) > 1.0e-9) {
                 return false;
             }
         }
